@@ -22,7 +22,7 @@ ASSUMPTIONS = [
     "modules/vector are stubs (subclasses of the real AbstractModule/AbstractVector overriding overhang_start/overhang_end/"
     "target_sequence) - the walk reads nothing else",
     "overhang letters over ACGT, all modules' overhangs have the cutter's overhang length",
-    "DuplicateModules.duplicates must be *a* conflicting pair; UnusedModules.remaining is compared as a set",
+    "DuplicateModules.duplicates must name supplied modules among which two conflict; UnusedModules.remaining is compared as a set",
 ]
 
 MARK = ["AAAC", "CCG", "GT", "TGCAT", "ACA", "GG"]
@@ -63,10 +63,10 @@ def ob_graph(ctx):
     ctx.witness(ref[0])
     ctx.require(out["kind"] == ref[0], "outcome-class:%s-vs-%s" % (out["kind"], ref[0]))
     if ref[0] == "DuplicateModules":
-        d = out["exc"].duplicates
-        ctx.require(len(d) == 2 and all(x in mods for x in d), "duplicates-payload")
-        i, j = mods.index(d[0]), mods.index(d[1])
-        ctx.require((min(i, j), max(i, j)) in ref[1], "duplicates-not-a-conflicting-pair")
+        d = list(out["exc"].duplicates)
+        ctx.require(len(d) >= 1 and all(x in mods for x in d), "duplicates-payload")
+        idx = [mods.index(x) for x in d]
+        ctx.require(any((min(i, j), max(i, j)) in ref[1] for i in idx for j in idx), "duplicates-do-not-contain-a-conflicting-pair")
         ctx.require(not out["unused"], "warning-with-error")
         ctx.witness("palindromic-start", any(a == b for a, b in ref[1]))
         ctx.witness("reverse-complement-pair", any(a != b for a, b in ref[1]))
